@@ -58,48 +58,81 @@ class LoopNames:
         below = [f for f in res.reachable_from(run) if f.cls is loop and f.key != run.key]
         reach = {f.key: {x.key for x in res.reachable_from(f)} for f in below}
 
-        def writes_state(f, member):
-            for n in walk_no_nested(f.node):
-                if isinstance(n, ast.Assign) and any(is_self_attr(t, self.state) for t in n.targets) and src(n.value).endswith("." + member):
-                    return True
-            return False
-
-        def increments_count(f):
-            for n in walk_no_nested(f.node):
-                if isinstance(n, ast.AugAssign) and is_self_attr(n.target, self.count) and isinstance(n.op, ast.Add):
-                    return True
-                if isinstance(n, ast.Assign) and any(is_self_attr(t, self.count) for t in n.targets) and isinstance(n.value, ast.BinOp) and isinstance(n.value.op, ast.Add) and any(is_self_attr(x, self.count) for x in ast.walk(n.value)):
-                    return True
-            return False
-        role_writers = {"admit": {f.key for f in below if writes_state(f, "HALF_OPEN")},
-                        "failure": {f.key for f in below if increments_count(f)},
-                        "success": {f.key for f in below if writes_state(f, "CLOSED")}}
+        # roles by *behaviour*: every zero-argument method below run() (that does not reach the agents) is interpreted from
+        # each breaker state with the counters unknown, and classified by what it can write — however the writes are
+        # spelled (literal assignments, a transition table applied by a helper, a shared _trip routine)
         calls_agents = {f.key for f in below if any(isinstance(n, ast.Call) and isinstance(n.func, ast.Attribute) and n.func.attr == "express" for n in ast.walk(f.node))}
+        zero_arg = [f for f in below if [a for a in f.params() if a != "self"] == [] and not (reach[f.key] & calls_agents) and f.key not in calls_agents
+                    and not any(isinstance(d, ast.Name) and d.id in ("property", "staticmethod", "classmethod") for d in f.node.decorator_list)]
+        behaviour = {}
+        for f in zero_arg:
+            beh = dict(half_open=False, closes=False, counts=False, opens=False, bool_ret=True)
+            for start in ("CLOSED", "OPEN", "HALF_OPEN"):
+                def go(o, _f=f, _start=start):
+                    it = Interp(p, o)
+                    it.stubs["BioAgent.__init__"] = lambda interp, args, kwargs: None
+                    obj = it.instantiate(loop, [], dict(budget=Obj(None, {}, tag="budget"), enable_circuit_breaker=True, failure_threshold=Unknown("failure_threshold"),
+                                                        recovery_timeout_seconds=Unknown("recovery_timeout_seconds"), silent=True, on_block=None, on_permit=None))
+                    obj.fields[self.state] = it.enum_member(cstate, _start)
+                    for fld in (self.count, self.successes, self.last_failure, self.trips):
+                        if fld is not None:
+                            obj.fields[fld] = Unknown(fld)
+                    for k_, v_ in list(obj.fields.items()):
+                        if v_ is None and k_.startswith("_"):
+                            obj.fields[k_] = Unknown(k_)          # any timestamp the breaker keeps
+                    it.events.clear()
+                    it.watch_fields = {("CoherentFeedForwardLoop", self.state), ("CoherentFeedForwardLoop", self.count)}
+                    try:
+                        r = it.call_fi(_f, [obj], {})
+                    except PyRaise:
+                        r = "raise"
+                    return (r, [e for e in it.events if e[0] == "write"])
+                try:
+                    paths = explore(go, max_paths=300)
+                except Imprecise:
+                    paths = []
+                for _, (r, writes) in paths:
+                    if not isinstance(r, bool):
+                        beh["bool_ret"] = False
+                    for w in writes:
+                        if w[2] == self.state:
+                            nm_ = getattr(w[4], "name", None)
+                            if nm_ == "HALF_OPEN":
+                                beh["half_open"] = True
+                            if nm_ == "CLOSED" and getattr(w[3], "name", None) != "CLOSED":
+                                beh["closes"] = True
+                            if nm_ == "OPEN":
+                                beh["opens"] = True
+                        if w[2] == self.count and "Add 1" in repr(w[4]):
+                            beh["counts"] = True
+            behaviour[f.key] = beh
+        role_of = {"admit": lambda b_: b_["half_open"] and b_["bool_ret"] and not b_["counts"],
+                   "failure": lambda b_: b_["counts"],
+                   "success": lambda b_: b_["closes"] and not b_["counts"] and not b_["half_open"]}
         self.roles = {}
-        for role, writers in role_writers.items():
-            if not writers:
-                raise AnchorError(f"CoherentFeedForwardLoop: no method below run() plays the breaker role '{role}' (writes of self.{self.state} / self.{self.count})")
-            others = set().union(*[w for r, w in role_writers.items() if r != role])
-            cands = [f for f in below if reach[f.key] & writers and not (reach[f.key] & others) and not (reach[f.key] & calls_agents)]
-            cands = [f for f in cands if [a for a in f.params() if a != "self"] == []]      # the breaker's own operations take no argument
-            if role == "admit":
-                cands = [f for f in cands if _returns_bool(f)]
+        for role, pred in role_of.items():
+            cands = [f for f in zero_arg if pred(behaviour[f.key])]
+            if not cands:
+                raise AnchorError(f"CoherentFeedForwardLoop: no zero-argument method below run() behaves as the breaker's '{role}' operation (state field self.{self.state}, counter self.{self.count})")
             outer = [f for f in cands if not any(f.key in reach[g.key] for g in cands if g.key != f.key)]
             if len(outer) != 1:
-                raise AnchorError(f"CoherentFeedForwardLoop: breaker role '{role}' is played by {[f.qual for f in outer] or 'no method'} (one expected)")
+                raise AnchorError(f"CoherentFeedForwardLoop: breaker role '{role}' is played by {[f.qual for f in outer]} (one expected)")
             self.roles[role] = outer[0]
         self.admit, self.rec_failure, self.rec_success = self.roles["admit"], self.roles["failure"], self.roles["success"]
         self.reset = p.find_method(loop, "reset_circuit_breaker")
         if self.reset is None:
             raise AnchorError("CoherentFeedForwardLoop.reset_circuit_breaker (public) not found")
         self.run = run
-        # cache lookup: the outermost method below run() that tests an entry's age against the public `cache_ttl`
-        cc = [f for f in below if any(isinstance(n, ast.Compare) and any(is_self_attr(x, "cache_ttl") for x in ast.walk(n)) for n in ast.walk(f.node))]
-        cc = [f for f in below if reach[f.key] & {x.key for x in cc} and not (reach[f.key] & calls_agents)]
-        outer = [f for f in cc if not any(f.key in reach[g.key] for g in cc if g.key != f.key)]
-        self.cache_check = outer[0] if len(outer) == 1 else None
+        # cache lookup: the method below run() that itself tests an entry's age against the public `cache_ttl`
+        cc = [f for f in below if any(isinstance(n, ast.Compare) and any(is_self_attr(x, "cache_ttl") for x in ast.walk(n)) for n in walk_no_nested(f.node))]
+        self.cache_check = cc[0] if len(cc) == 1 else None
         # every method that belongs to the breaker (may write its fields)
         self.breaker_methods = {"__init__", self.reset.name}
+        init = p.find_method(loop, "__init__")
+        if init is not None:
+            # construction helpers: reachable from __init__ and from nowhere else
+            others = {g.key for f in loop.methods.values() if f.name != "__init__" for g in res.reachable_from(f) if g.key != f.key}
+            self.breaker_methods |= {g.name for g in res.reachable_from(init) if g.cls is loop and g.key not in others}
         for f in (self.admit, self.rec_failure, self.rec_success):
             self.breaker_methods |= {x.name for x in res.reachable_from(f) if x.cls is loop}
 
